@@ -4,6 +4,7 @@ import os
 import re
 import sys
 from collections.abc import Iterator, Sequence
+from decimal import Decimal
 from string import Template
 from types import TracebackType
 from typing import TYPE_CHECKING, Any, cast
@@ -475,6 +476,14 @@ class FakeSnowflakeCursor:
                 params = tuple(convert(v) for v in params)
 
             return command % params, None
+
+        if params and not isinstance(params, dict):
+            # server-side (qmark) binding: duckdb binds python ints wider than 64 bits as DOUBLE, which loses
+            # precision, so bind them as DECIMAL (snowflake NUMBER holds 38 digits)
+            params = [
+                Decimal(p) if isinstance(p, int) and not isinstance(p, bool) and not -(2**63) <= p < 2**63 else p
+                for p in params
+            ]
 
         return command, params
 
